@@ -41,7 +41,7 @@ func TestMain(m *testing.M) {
 		evid.Spec{Name: "TestPropParallelism", Kind: "rapid", Quick: 720, Thorough: 9600, QuickShards: 16, ThoroughShards: 16},
 	)
 	evid.Commands("obiconvert", "obigrep", "obiannotate", "obicomplement", "obipairing", "obimultiplex", "obipcr", "obicount", "obisummary", "obicsv")
-	evid.Note("rule", "a case = (command, functional options, generated input: FASTA/FASTQ records with annotations; paired reads cut from fragments for obipairing; tagged amplicon reads + sample sheet for obimultiplex; templates with planted priming sites for obipcr) run once with default parallelism and then under 5 generated configurations of --max-cpu {1..32} x --batch-size {1,2,3,7,n/2,n,2000} x GOMAXPROCS {1,2,16} x push jitter on/off (binaries built with recycled-buffer poisoning). Oracle: stdout (and the -u file of obimultiplex) byte-identical to the baseline run, exit status 0, no poison byte in any sequence line; obisummary/obicount compared as parsed values. Non-trivial = the compared run used >= 2 CPUs and the input holds more records than the batch size (>= 2 batches). Distinct = hash(command, options, input, configuration).")
+	evid.Note("rule", "a case = (command, functional options, generated input: FASTA/FASTQ records with annotations; paired reads cut from fragments for obipairing; tagged amplicon reads + sample sheet for obimultiplex; templates with planted priming sites for obipcr) run once with default parallelism and then under 5 generated configurations of --max-cpu {1..32} x --batch-size {1,2,3,7,n/2,n,2000} x GOMAXPROCS {1,2,16} x push jitter on/off x the non-functional options --debug / --no-progressbar (binaries built with recycled-buffer poisoning). Oracle: stdout (and the -u file of obimultiplex) byte-identical to the baseline run, exit status 0, no poison byte in any sequence line; obisummary/obicount compared as parsed values. Non-trivial = the compared run used >= 2 CPUs and the input holds more records than the batch size (>= 2 batches). Distinct = hash(command, options, input, configuration).")
 	evid.Main(m, "C05")
 }
 
@@ -54,6 +54,8 @@ type Config struct {
 	Batch  int // 0 = option not given
 	Procs  int // GOMAXPROCS, 0 = unset
 	Jitter int // microseconds, 0 = off
+	Debug  bool // --debug: log level only, the output must not change
+	NoBar  bool // --no-progressbar
 }
 
 type Case struct {
@@ -245,6 +247,12 @@ func runOnce(c Case, cfg Config, inArgs, outFiles []string) (output, run.Result)
 	if cfg.Batch > 0 {
 		args = append(args, "--batch-size", strconv.Itoa(cfg.Batch))
 	}
+	if cfg.Debug {
+		args = append(args, "--debug")
+	}
+	if cfg.NoBar && c.Tool != "obicount" && c.Tool != "obisummary" { // these two have no such option
+		args = append(args, "--no-progressbar")
+	}
 	args = append(args, c.Opts...)
 	args = append(args, inArgs...)
 	var env []string
@@ -435,6 +443,8 @@ func TestPropParallelism(t *testing.T) {
 				Batch:  rapid.SampledFrom([]int{0, 1, 2, 3, 7, max(1, c.N/2), c.N, 2000}).Draw(rt, "batch"),
 				Procs:  rapid.SampledFrom([]int{0, 0, 1, 2, 16}).Draw(rt, "gomaxprocs"),
 				Jitter: rapid.SampledFrom([]int{0, 0, 100, 1000}).Draw(rt, "jitter"),
+				Debug:  rapid.IntRange(0, 5).Draw(rt, "debug") == 0,
+				NoBar:  rapid.IntRange(0, 5).Draw(rt, "nobar") == 0,
 			}
 			if c.N >= 300 && cfg.Batch > 0 && cfg.Batch < 3 {
 				cfg.Batch = 7 // one-record batches on large inputs only cost time
